@@ -415,6 +415,39 @@ def r6_inherit(ctx, prog):
                 r.ok(f['qname'], site, '%d committing paths' % n, file=f['file'], line=f['line'])
 
 
+def r7_copy_complete(ctx, prog):
+    """C_CopyObject hands every attribute of the source to the copy before the template is applied: the one-way setters (C02.R4) decide on the *current* value
+    in the new object, so an attribute that is skipped because the template names it would be judged against the class default instead of the source's value."""
+    r = ctx.rule('C02.R7', 'C_CopyObject copies every source attribute into the new object before the template is applied (no skip that depends on the template)', floor=1, engine='E3')
+    from rules.c16 import outcomes as fo
+    f = prog.fn('SoftHSM::C_CopyObject')
+    ctx.analysed(f)
+    o = fo(f, prog, {}, record={'setAttribute', 'nextAttributeType', 'commitTransaction', 'saveTemplate', 'getAttribute'}, rounds=2, cap=768)
+    r.paths += len(o.outcomes)
+    bad, n = None, 0
+    for oc in o.outcomes:
+        evs = [e for e in oc['events'] if e[0] == 'call']
+        nx = [i for i, e in enumerate(evs) if e[1] == 'nextAttributeType']
+        if not nx:
+            continue
+        n += 1
+        # every iteration: between the fetch of the attribute and the step to the next type the attribute must have been stored in the new object
+        prev = -1
+        for j in nx:
+            ga = [i for i, e in enumerate(evs) if e[1] == 'getAttribute' and prev < i < j]
+            st = [i for i, e in enumerate(evs) if e[1] == 'setAttribute' and e[2] and e[2][0] == 'newobject' and prev < i < j]
+            if ga and not st:
+                bad = oc
+            prev = j
+    if bad:
+        r.violation(f['qname'], 'copy loop', 'a path steps to the next attribute type without having stored the current one in the new object: the copy starts from the class default for that attribute, so a template entry can take a protection '
+                    '(CKA_SENSITIVE, CKA_WRAP_WITH_TRUSTED) away that C_CopyObject must preserve', file=f['file'], line=bad['line'], path=bad['path'])
+    elif n == 0:
+        r.undecided(f['qname'], 'copy loop', 'no path through the copy loop found', file=f['file'], line=f['line'])
+    else:
+        r.ok(f['qname'], 'copy loop', '%d iterating paths, each stores the attribute' % n, file=f['file'], line=f['line'])
+
+
 def run(ctx):
     prog = ctx.prog('ossl-file')
     ck7 = r1_table(ctx, prog)
@@ -423,9 +456,13 @@ def run(ctx):
     r4_oneway(ctx, prog)
     r5_wrap(ctx, prog)
     r6_inherit(ctx, prog)
+    r7_copy_complete(ctx, prog)
 
 
 MUTANTS = [
+    dict(name='copyobject-skips-attributes-named-in-template', rule='C02.R7', file='src/lib/SoftHSM.cpp', after='CK_RV SoftHSM::C_CopyObject',
+         old='\t\t// Upgrade privacy has to encrypt byte strings\n\t\tif (!wasPrivate && isPrivate &&',
+         new='\t\tbool bInTemplate = false;\n\t\tfor (CK_ULONG i = 0; i < ulCount && attrType != CKA_CLASS; i++)\n\t\t{\n\t\t\tif (pTemplate[i].type == attrType) bInTemplate = true;\n\t\t}\n\t\tif (bInTemplate)\n\t\t{\n\t\t}\n\t\telse if (!wasPrivate && isPrivate &&'),
     dict(name='wrap-null-mechanism-copies-key', rule='C02.R3', file='src/lib/SoftHSM.cpp', after='CK_RV SoftHSM::WrapKeySym',
          old='\tSymmetricAlgorithm* cipher = CryptoFactory::i()->getSymmetricAlgorithm(algo);\n\tif (cipher == NULL) return CKR_MECHANISM_INVALID;',
          new='\tif (pMechanism->ulParameterLen == 0 && pMechanism->mechanism == CKM_AES_CBC) { wrapped = keydata; return CKR_OK; }\n\tSymmetricAlgorithm* cipher = CryptoFactory::i()->getSymmetricAlgorithm(algo);\n\tif (cipher == NULL) return CKR_MECHANISM_INVALID;'),
